@@ -25,6 +25,7 @@ pub fn script(seed: u64, name: &str, quick: bool) -> Vec<Case7> {
     let mut rng = Rng::derive(seed, 0x0707, match name {
         "big" => 1,
         "hostile" => 2,
+        "mid" => 3,
         _ => 0,
     });
     let mut ks: Vec<usize> = vec![];
@@ -35,9 +36,16 @@ pub fn script(seed: u64, name: &str, quick: bool) -> Vec<Case7> {
             ks.push(2195);
         }
     } else if name == "big" {
-        ks.extend([477, 989, 1000, 2195, 4000, 10000]);
+        ks.extend([4000, 10000]);
         if !quick {
-            ks.extend([845, 860, 3970, 20000]);
+            ks.extend([3970, 6589, 20000]);
+        }
+    } else if name == "mid" {
+        // large enough for several 64-bit words of dense columns per row (u > 64 from K ~ 1000) and
+        // still cheap on the dense back-end, so dense and sparse are compared there too
+        ks.extend([477, 989, 1000, 1300, 1649, 2195]);
+        if !quick {
+            ks.extend([845, 860, 1673, 2000, 3000]);
         }
     } else {
         ks.extend(1..=40);
@@ -311,6 +319,7 @@ fn record(ctx: &Ctx) -> i32 {
     });
     let mut scripts = vec!["hostile", "common"];
     if build_name() == "release" {
+        scripts.push("mid");
         scripts.push("big");
     }
     let mut n_cfg = 0;
@@ -327,7 +336,13 @@ fn record(ctx: &Ctx) -> i32 {
         let cfgs: Vec<Config> = if sname == "hostile" {
             // one configuration per build: default dispatch, default threshold, default route
             vec![Config { isa: if cfg!(feature = "full") { 0 } else { 4 }, thr: 250, route: 0 }]
-        } else if sname == "big" { configs(ctx.args.quick()).into_iter().filter(|c| c.thr != u32::MAX && (c.isa + c.route) % 2 == 0).collect() } else { configs(ctx.args.quick()) };
+        } else if sname == "big" {
+            configs(ctx.args.quick()).into_iter().filter(|c| c.thr != u32::MAX && (c.isa + c.route) % 2 == 0).collect()
+        } else if sname == "mid" {
+            configs(ctx.args.quick()).into_iter().filter(|c| (c.isa + c.route) % 2 == 0).collect()
+        } else {
+            configs(ctx.args.quick())
+        };
         for cfg in cfgs {
             if !set_isa(cfg.isa) {
                 skipped.push(cfg.name());
@@ -399,6 +414,9 @@ fn compare(ctx: &Ctx) -> i32 {
                 h.bytes(sname.as_bytes()).u64(i as u64);
                 ctx.nontrivial(h.get());
             }
+            if l.contains(" PANIC ") {
+                ctx.violation(format!("C07 panic {sname} {}", short(l, 40)), format!("script {sname}: the library panicked on a valid input in configuration {ref_name} (no result to compare): {l}"), J::obj(vec![("script", J::s(sname.clone())), ("case_id", J::i(l.split(' ').next().unwrap().parse::<usize>().unwrap_or(0)))]));
+            }
             if l.contains(" correct=false") {
                 ctx.violation(format!("C07 wrong-bytes {sname} {}", short(l, 40)), format!("script {sname}: configuration {ref_name} decoded wrong bytes: {l}"), J::obj(vec![("script", J::s(sname.clone())), ("case_id", J::i(l.split(' ').next().unwrap().parse::<usize>().unwrap_or(0)))]));
             }
@@ -437,7 +455,7 @@ fn compare(ctx: &Ctx) -> i32 {
         ctx.floor("event_logs", n_logs as u64, 30);
     }
     ctx.finish(
-        "one deterministic case script (K in 1..40, 100, 126, 127, 249, 250, 251, 300; T over residues mod 64; packets for first/random/top/overflow-sensitive ESIs; packet-by-packet decode of an arrival sequence with 0-2 overhead and a duplicate; one-shot block decode with overhead >= H) is executed by every configuration = build {release, checked (debug assertions + overflow checks), no_std} x ISA {native dispatch, AVX-512, AVX2, SSSE3, portable via the cap hook; no_std: portable} x sparse threshold {0,250,inf} on both encoder and decoder x plan route {new (cached / direct in no_std), explicit plan, unplanned}; release additionally runs a script with K up to 10000; each configuration logs `case op digest` and the offline checker requires all logs of a script to be line-for-line equal. non-trivial = a (case, op) line whose digest was produced by at least two configurations; distinct by (script, line)",
+        "one deterministic case script (K in 1..40, 100, 126, 127, 249, 250, 251, 300; T over residues mod 64; packets for first/random/top/overflow-sensitive ESIs; packet-by-packet decode of an arrival sequence with 0-2 overhead and a duplicate; one-shot block decode with overhead >= H) is executed by every configuration = build {release, checked (debug assertions + overflow checks), no_std} x ISA {native dispatch, AVX-512, AVX2, SSSE3, portable via the cap hook; no_std: portable} x sparse threshold {0,250,inf} on both encoder and decoder x plan route {new (cached / direct in no_std), explicit plan, unplanned}; release additionally runs a script with K in 477..2195 (3000) on all three thresholds (dense vs sparse with several words of dense columns per row) and one with K up to 10000 (20000) on the sparse thresholds; a panic on a valid input is reported even when every configuration panics alike; each configuration logs `case op digest` and the offline checker requires all logs of a script to be line-for-line equal. non-trivial = a (case, op) line whose digest was produced by at least two configurations; distinct by (script, line)",
         &["NEON kernels cannot run on this x86-64 host", "serde/python features are not part of the property"],
         vec![],
     )
